@@ -91,13 +91,15 @@ def configs(draw, wrappers=("interval",), allow_cache0=True, allow_dt=True, allo
 
 
 @st.composite
-def op_lists(draw, cfg, min_ops=1, max_ops=12, max_sweep=40, allow_zero=True):
+def op_lists(draw, cfg, min_ops=1, max_ops=12, max_sweep=40, allow_zero=True, allow_point=False):
     n = cfg["grid"]
     ops = []
     k = draw(st.integers(min_ops, max_ops))
     kinds = ["q", "q", "q", "sweep", "sweepback", "zoom", "req", "trial", "pad100"]
     if allow_zero:
         kinds.append("zero")
+    if allow_point:
+        kinds += ["pt", "pt"] if cfg["wrapper"] in ("path", "tree") else ["pt"]
     for _ in range(k):
         kind = draw(st.sampled_from(kinds))
         if kind == "q":
@@ -128,6 +130,13 @@ def op_lists(draw, cfg, min_ops=1, max_ops=12, max_sweep=40, allow_zero=True):
             ops.append(["trial", i, j])
         elif kind == "zero":
             ops.append(["zero", draw(st.integers(0, n))])
+        elif kind == "pt":
+            # point evaluation bm(t) (value at t, including w0 for BrownianPath/BrownianTree); dyadic points of the
+            # interval are single tree nodes, so draw them often
+            if draw(st.booleans()):
+                ops.append(["pt", n // (2 ** draw(st.integers(0, 4)))])
+            else:
+                ops.append(["pt", draw(st.integers(0, n))])
     return ops
 
 
@@ -175,6 +184,8 @@ def expand(case):
             add(m, j)
         elif kind == "zero":
             add(op[1], op[1])
+        elif kind == "pt":             # point evaluation: represented as (None, t)
+            out.append((None, time_of(cfg, op[1])))
         elif kind == "raw":            # explicit float times (used by dedicated generators / replays)
             out.append((float(op[1]), float(op[2])))
         else:
@@ -208,7 +219,7 @@ def build(cfg, torchsde, torch):
             rev = torchsde._brownian.ReverseBrownian(interval)
             base = lambda ta, tb, **k: rev(-tb, -ta, **k)  # noqa: E731
     elif wrapper == "path":
-        w0 = torch.zeros(shape, dtype=dtype)
+        w0 = torch.randn(shape, dtype=dtype, generator=g) + 2.0
         obj = torchsde.BrownianPath(t0=cfg["t0"], w0=w0)
         interval = obj._interval
         base = obj
@@ -226,6 +237,11 @@ def build(cfg, torchsde, torch):
     have_A = cfg["levy"] in ("davie", "foster") and wrapper in ("interval", "reverse")
 
     def bm(ta, tb):
+        if ta is None:
+            # point evaluation
+            if wrapper == "reverse":
+                return interval(cfg["t0"], tb), None, None
+            return base(tb), None, None
         if have_A:
             w, u, a = base(ta, tb, return_U=True, return_A=True)
             return w, u, a
@@ -234,5 +250,6 @@ def build(cfg, torchsde, torch):
             return w, u, None
         return base(ta, tb), None, None
 
-    meta = {"have_H": have_H, "have_A": have_A, "W": W, "H": H, "base": base}
+    meta = {"have_H": have_H, "have_A": have_A, "W": W, "H": H, "base": base,
+            "w0": w0 if wrapper in ("path", "tree") else None}
     return bm, interval, meta
